@@ -107,5 +107,23 @@ let handle = function
     if no_overlap (z_of_int 0) (fun (_, l) -> l) sorted
     then "ok " ^ Stdlib.String.concat " " (List.map (fun (_, (i, _)) -> string_of_int i) sorted)
     else "err AssertionError"
+  | "plan" ->
+    let entry = onat () in
+    let pat_tok () = match next () with
+      | "L" -> PLit (nn ()) | "M" -> PMain | "E" -> PEntrypoint | "R" -> PRegex (listn nn) | t -> failwith ("bad pattern " ^ t) in
+    let opats () = if next () = "-" then None else Some (listn pat_tok) in
+    let funcs = listn (fun () -> let name = nn () in let en = listn nn in let ex = listn nn in { f_name = name; f_entries = en; f_exits = ex }) in
+    let id = nn () in let code = next_bool () in let fi = ni () in let insns = listn next_z in let term = next_bool () in
+    let blk = { b_id = id; b_code = code; b_func = (if fi < 0 then None else Some (List.nth funcs fi)); b_insns = insns; b_term = term } in
+    let bpos_tok () = match next () with "E" -> PEntry | "X" -> PExit | _ -> PAnywhere in
+    let regs = listn (fun () -> let rid = nn () in
+      let sc = match next () with
+        | "A" -> let p = bpos_tok () in let ex = opats () in SAllBlocks (p, ex)
+        | "S" -> let b = nn () in let p = bpos_tok () in SSingle (b, p)
+        | "F" -> let fp = (if next () = "E" then FEntry else FExit) in let bp = bpos_tok () in let fs = opats () in SAllFunctions (fp, bp, fs)
+        | "P" -> let b = nn () in let o = next_z () in let r = next_z () in SSpecific (b, o, r)
+        | t -> failwith ("bad scope " ^ t) in
+      (rid, sc)) in
+    Stdlib.String.concat " " (List.map (fun (o, i) -> str_of_z o ^ ":" ^ string_of_int (i_of i)) (plan entry regs blk))
   | c -> failwith ("unknown command " ^ c)
 let () = main_loop handle
